@@ -65,9 +65,10 @@ def conv(rsl, xi, p, breaks_u=(), extra_z=(), epsrel=1e-11, limit=200):
     return tot, scale, err
 
 
-def int_sing(rsl, x0, x1):
-    """int_{x0}^{x1} sing(z) dz"""
-    _, sing, _ = _pieces(rsl)
+def int_sing(rsl, x0, x1, absolute=False):
+    """int_{x0}^{x1} sing(z) dz (or of |sing| with absolute=True: a cancellation-free scale)"""
+    _, sing0, _ = _pieces(rsl)
+    sing = (lambda z: abs(sing0(z))) if absolute else sing0
     pts = [x for x in (1 - 1e-2, 1 - 1e-4, 1 - 1e-6) if x0 < x < x1]
     tot = err = 0.0
     edges = [x0] + pts + [x1]
